@@ -60,6 +60,35 @@ def cacheStep (c : Caps) (s : CacheState) (g : Nat) : CacheState :=
 
 def cacheRun (c : Caps) (s : CacheState) (sched : List Nat) : CacheState := sched.foldl (cacheStep c) s
 
+/-! ### `Equal`: classify both arguments, then ask the runtime that owns them
+
+  The runtimes' equality relations are abstract (`rt`: what the owning runtime's `Equal` says about the
+  pair).  They are NOT assumed reflexive: Gogo compares float fields with Go's `==`, so a message that
+  holds a NaN is not equal to itself there.  `samePtr` (both interface values hold the very same
+  pointer) is an input of the model precisely so that the theorems can say it is never looked at. -/
+
+/-- `csproto.Equal` as the source has it: classes differ → false; unsupported → false; else the runtime's answer -/
+def shimEqual (t1 t2 : MT) (_samePtr : Bool) (rt : Bool) : Bool :=
+  if t1 != t2 then false
+  else match t1 with
+    | .unknown => false
+    | _ => rt
+
+/-- a dispatcher that answers "same pointer" by itself (what protobuf-go does *inside* its own `Equal`,
+    where the relation is reflexive) — not what the shim may do for a runtime it does not own -/
+def shimEqualShortcut (t1 t2 : MT) (samePtr : Bool) (rt : Bool) : Bool :=
+  if t1 != t2 then false
+  else match t1 with
+    | .unknown => false
+    | _ => if samePtr then true else rt
+
+/-- `Clone` / `MarshalText` / the extension accessors: unsupported → the documented zero result (`none`),
+    else the result of the owning runtime's function, unchanged -/
+def shimUnary {α : Type} (t : MT) (rt : α) : Option α :=
+  match t with
+  | .unknown => none
+  | _ => some rt
+
 /-! ### dispatch by probing interfaces in source order -/
 
 /-- first probe (in the order the source tests them) that the value satisfies -/
